@@ -685,3 +685,14 @@ fire("C16", "robust: core potential centred on the first atom only", "P7.robust-
      ("sub", "robust_poisson.py", "            centers_rep = np.tile(center, (len(coeffs_s), 1))\n", "            centers_rep = np.tile(atcoords[0], (len(coeffs_s), 1))\n"))
 silent("C16", "robust: sum in another order of the same three parts",
        ("sub", "robust_poisson.py", "        return v_core + v_bonding + v_residual\n", "        total = v_residual + v_bonding\n        return total + v_core\n"))
+
+# C15, orderings of the integration span
+fire("C15", "chain-rule matrix taken at the lower end of the span (wrong when integrating downwards)", "T5.initial-data-mapping/ode.solve_ode_ivp/y0",
+     ("sub", "ode.py", "            [transform.deriv, transform.deriv2, transform.deriv3],\n            x_span[0],", "            [transform.deriv, transform.deriv2, transform.deriv3],\n            min(x_span),"))
+silent("C15", "span bounds named for the domain check, matrix still at the initial point",
+       ("sub", "ode.py", "        if min(x_span) < transform.domain[0] or max(x_span) > transform.domain[1]:\n", "        x_lower, x_upper = min(x_span), max(x_span)\n        if x_lower < transform.domain[0] or x_upper > transform.domain[1]:\n"))
+fire("C15", "second-order shortcut divides by g' at the already transformed initial point", "T5.initial-data-mapping/ode.solve_ode_ivp/y0[1]",
+     ("sub", "ode.py", "        y_derivs = solve(deriv, np.array(y0[1:]))\n", "        y_derivs = solve(deriv, np.array(y0[1:])) if order != 2 else np.atleast_1d(y0[1] / transform.deriv(x_span[0]))\n"))
+silent("C15", "second-order shortcut for the initial slope (division by g' at the original initial point)",
+       ("sub", "ode.py", "        x_span = transform.transform(np.array(list(x_span)))\n        # Solve for derivatives in original domain by solving A(original derivs) = new derivs\n        y_derivs = solve(deriv, np.array(y0[1:]))\n",
+        "        slope = np.atleast_1d(y0[1] / transform.deriv(x_span[0])) if order == 2 else None\n        x_span = transform.transform(np.array(list(x_span)))\n        y_derivs = solve(deriv, np.array(y0[1:])) if slope is None else slope\n"))
